@@ -89,6 +89,8 @@ let run_case (toks : string list) : n list option * n list option =
   | ["PAT"; h] -> same (run_pat (bytes_of_tok h))
   | ["PMT"; h] -> same (run_pmt (bytes_of_tok h))
   | "SEC" :: f :: pk -> same (run_sec (num (string_of_int ((int_of_string f) lor (if !fuzzing then 8 else 0)))) (List.map bytes_of_tok pk))
+  | ["ALLOC"; w; s] -> same (run_alloc (bytes_of_tok w) (bytes_of_tok s))
+  | ["MEM"; h] -> same (run_mem (bytes_of_tok h))
   | "PESF" :: f :: pk -> same (run_pesf (num f) (List.map bytes_of_tok pk))
   | "DMX" :: f :: s :: ch -> same (run_dmx (num (string_of_int ((int_of_string f) lor (if !fuzzing then 2 else 0)))) (parse_scripts s) (List.map bytes_of_tok ch))
   | ["PES"; h] -> let b = bytes_of_tok h in (run_pes false b, run_pes true b)
